@@ -49,6 +49,7 @@ theorem generated_all_ops_known_c17 : taskSemKnown = true := by decide
 
 
 
+
 -- BEGIN PINS (written by bin/mkpins; do not edit by hand)
 /-- the Go functions this property's model and obligations were written against have exactly the
 pinned skeletons (SHA-256 prefix of the atom list) -/
@@ -63,7 +64,7 @@ theorem pinned_skeletons_c17 :
      ("Scipipe.InPort_Send", "62cb51bf3ab53084"),
      ("Scipipe.NewTask", "95298f03c320cb96"),
      ("Scipipe.OutPort_Send", "06287c7bef096378"),
-     ("Scipipe.Process_Run", "05880ea16e590fb1"),
+     ("Scipipe.Process_Run", "40f832903317f455"),
      ("Scipipe.Process_initPortsFromCmdPattern", "4f7c6ade86c29af6"),
      ("Scipipe.Task_Execute", "40fd1fec0c69deb2"),
      ("Scipipe.Task_anyOutputsExist", "0609a842b7aaf7a8"),
